@@ -2,7 +2,7 @@
 from . import env
 
 KINDS = ["fifo-random", "fifo-grid", "fifo-bo", "hb-stopping", "hb-promotion", "hb-pasha", "hb-cost", "hb-rush-stop",
-         "hb-rush-prom", "shb", "dehb", "pbt", "moasha", "median"]
+         "hb-rush-prom", "shb", "dehb", "pbt", "moasha", "median", "rea"]
 
 
 def is_pause_resume(kind):
@@ -80,6 +80,10 @@ def make(kind, mode="min", seed=0, R=4, mra=True, space=None, metric="m", allow_
         s = MOASHA(base_space, metrics=[metric, "m2"], mode=[mode, "min"], time_attr="epoch", max_t=R, grace_period=1,
                    reduction_factor=2, **kw)
         info["metrics"] = [metric, "m2"]
+    elif kind == "rea":
+        from syne_tune.optimizer.baselines import REA
+        s = REA(base_space, metric=metric, population_size=kw.pop("population_size", 3), sample_size=kw.pop("sample_size", 2),
+                random_seed=seed, mode=mode, search_options=so, **kw)
     elif kind == "median":
         inner = FIFOScheduler(base_space, searcher="random", metric=metric, mode=mode, random_seed=seed, search_options=so)
         s = MedianStoppingRule(inner, resource_attr="epoch", grace_time=1, grace_population=2, **kw)
